@@ -980,6 +980,9 @@ func runFo(o Opts) *Result {
 		total = len(scenarios)
 	}
 	for idx := 0; idx < total; idx++ {
+		if timeUp() {
+			break
+		}
 		if o.Only >= 0 && idx != o.Only {
 			continue
 		}
@@ -1216,6 +1219,9 @@ func runFoDFS(o Opts, d *Driver, res *Result) {
 		exhausted := false
 		nBase := 0
 		for runs < o.N {
+			if timeUp() {
+				break
+			}
 			var taken [][2]int
 			sc := base
 			sc.Choices, sc.Taken = prefix, &taken
